@@ -8,13 +8,13 @@ ROOT = os.path.dirname(os.path.dirname(os.path.abspath(__file__)))
 # property -> (design section, technique, level text, level note, category)
 CLAIMED = {
     "C01": ("4 C01", "bounded exhaustive enumeration of operator sequences + property-based testing (rapid) of random typed expression trees against an independent reference interpreter; metamorphic layout equivalence",
-            "Exploration: all operator pairs and triples over several operand sets (exhaustive), hand-enumerated unary/postfix/ternary/member combinations and random typed trees to depth 5 with injected faults; each case is rendered in two layouts and compared with a reference interpreter written from the statement (precedence table, wrapping int64, IEEE doubles, string ops, listed error cases). No claim beyond the explored depth and operand values.",
+            "Exploration: all operator pairs and triples over several operand sets (exhaustive), hand-enumerated unary/postfix/ternary/member combinations and random typed trees to depth 5 with injected faults; each case is rendered in two layouts and compared with a reference interpreter written from the statement (precedence table, wrapping int64, IEEE doubles, string ops, listed error cases). No claim beyond the explored depth and operand values. Spellings 1..1500 levels deep with closed-form values; 15 failing operands at 62 places where a construct inspects, selects or passes on its operand (arguments of built-ins and of registered Go functions included): the render must fail.",
             "Trusted: lib/refint, lib/tw printers (validated per case by a reference parser round trip), lib/spec. Unspecified outcomes (e.g. bool == bool, float %, out-of-range index) are executed but not asserted. Float ++/-- accepts the IEEE result or the decimal-exact result.", "exploration"),
     "C06": ("4 C06", "property-based testing (rapid) of generated layout/page trees against an independent composition model + exhaustive enumeration of insert subsets/forms/orders for one layout",
             "Exploration: layouts with 1..4 reserves at every nesting position x pages inserting any subset in any order in block or expression form with junk between, data of every kind, three directory/extension settings; all 8 subsets x forms x orders x flag x lengths for a fixed three-reserve layout; the four error classes. Expected output from the reference composition model (lib/refint RenderPage).",
             "Trusted: lib/refint composition model, lib/tree (scratch directories, chdir). Insert bodies contain no assignments and do not read layout-local variables (the statement fixes 'evaluated with the data of the call' only).", "exploration"),
     "C07": ("4 C07", "property-based testing (rapid) of generated pages with multiple component uses against a reference instantiation model + exhaustive enumeration of slot-passing combinations for two/three uses",
-            "Exploration: four component files x pages with 1..4 uses (same component repeatedly, in loops, in branches, in insert blocks) with generated arguments and slot bodies; all 16 slot-passing combinations x 4 page shapes; six load-time error classes (message must name the component); eight argument-collision shapes (outer value must never show).",
+            "Exploration: four component files x pages with 1..4 uses (same component repeatedly, in loops, in branches, in insert blocks) with generated arguments and slot bodies; all 16 slot-passing combinations x 4 page shapes; six load-time error classes (message must name the component); eight argument-collision shapes (outer value must never show). Failing and unbindable arguments for component files that do not read them (plain text, empty, comment only) at six places of the use.",
             "Trusted: lib/refint component model (arguments evaluated at the place of use, placeholders replaced per use). Whitespace-only text right after a slot-less use, nested component uses and components used from layouts are not generated (not settled by the statement).", "exploration"),
     "C08": ("4 C08", "bounded exhaustive enumeration of lexeme sequences + property-based testing (rapid) of prefixes/mutations of generated valid templates and lexeme soups, with an out-of-band watchdog for non-termination",
             "Exploration: every sequence of up to 3 (quick) / 4 (thorough) lexemes from the full lexeme alphabet; every prefix that ends inside a construct, illegal characters inside code and lexeme mutations of generated valid templates; random soups; the same as files of a template directory. Oracle: returns (watchdog: CPU-time based, confirmed and minimised out of process), no panic, program xor errors with line >= 1, must-reject classes rejected.",
@@ -23,22 +23,22 @@ CLAIMED = {
             "Exploration: all @if chains with 0..3 @elseif x {false,true,failing}^n x else/no else in 4 contexts; the truthiness table for every value type (literal and data-supplied) through @if, @elseif, ternary, @breakIf, @continueIf and the @for condition; random nested programs. Expected output from the reference interpreter (first truthy branch, later conditions unevaluated).",
             "Trusted: lib/refint truthiness table and branch semantics (from the statement), lib/spec data construction. Bodies are unique markers so the output identifies the branch.", "exploration"),
     "C03": ("4 C03", "bounded exhaustive enumeration of loop shapes (array lengths, control-directive kinds and positions, for-loop bounds, nest shapes) + property-based testing (rapid) against the reference interpreter",
-            "Exploration: @each over lengths 0..4 x every control directive at every body position (bare and under @if/@elseif/nested @if/@else); every @for with bounds in -3..3; two- and three-level nests reading loop.* at each level; random nested programs. Expected output from reference loop semantics.",
+            "Exploration: @each over lengths 0..4 x every control directive at every body position (bare and under @if/@elseif/nested @if/@else); every @for with bounds in -3..3; two- and three-level nests reading loop.* at each level; random nested programs. Expected output from reference loop semantics. Loops of up to 100000 passes; loops whose body is a component use that reads the loop variable and loop.*.",
             "Trusted: lib/refint loop semantics. loop.* inside a @for body, reads of names bound in an earlier pass and arrays with mixed element types are unspecified and not asserted.", "exploration"),
     "C04": ("4 C04", "bounded exhaustive enumeration of small programs over assign/read/nesting forms + property-based testing (rapid) against a reference scope chain",
-            "Exploration: every program of <= 3 (quick) / 4 (thorough) statements over assignments of three types to two names, reads, and five nesting forms, under three data maps; the reserved name loop in every position; random programs with shadowing loop variables and type collisions; template directories in which component files and slot bodies are generated blocks and the page reads the names afterwards.",
+            "Exploration: every program of <= 3 (quick) / 4 (thorough) statements over assignments of three types to two names, reads, and five nesting forms, under three data maps; the reserved name loop in every position; random programs with shadowing loop variables and type collisions; template directories in which component files and slot bodies are generated blocks and the page reads the names afterwards. Generated layouts with reserves at every nesting position and generated insert bodies (an insert runs in the block that holds its reserve).",
             "Trusted: lib/refint scope chain (one scope per @if construct and per loop execution). Reads/re-bindings across loop passes, and of names a slot body assigned at its top level, are unspecified.", "exploration"),
     "C09": ("4 C09", "bounded exhaustive tables (built-ins x receivers x argument tuples; operators x operand kinds; @for clause subsets) + property-based testing (rapid) with an untyped program generator; oracle: no panic, returns, error line in range",
             "Exploration: every built-in name on receivers of every type with all argument tuples of length 0/1 and pairs over 19 boundary values; every operator on every ordered pair of operand kinds; @for with every subset of clauses absent; random untyped programs over data of every kind (nil pointers, nested unsupported values, invalid UTF-8).",
             "Trusted: recover()-based panic detection and the watchdog. Counts between 10^6 and 2^62 are not generated (memory exhaustion is not a decidable panic); MinInt64/MaxInt64 are.", "exploration"),
     "C10": ("4 C10", "bounded exhaustive enumeration of literal contents over an escaping-hostile alphabet + property-based testing (rapid) over usage contexts, oracle: three-rule escape, round trip through unescaping, raw() identity",
-            "Exploration: every content of <= 2 (quick) / 3 (thorough) pieces from an alphabet of < > & ; # quotes backslashes ready-made entities and UTF-8 in both quote styles, printed and through raw(); random longer contents in 14 string-API contexts and 5 template-directory contexts (insert argument/block, component argument, slot body, raw() in a component).",
+            "Exploration: every content of <= 2 (quick) / 3 (thorough) pieces from an alphabet of < > & ; # quotes backslashes ready-made entities and UTF-8 in both quote styles, printed and through raw(); random longer contents in 14 string-API contexts and 5 template-directory contexts (insert argument/block, component argument, slot body, raw() in a component). The literal as an argument of built-ins that place it in their result; the literal at the place of a fault, on the debug error page.",
             "Trusted: the three-rule escape written from the statement (& < > become entities, quotes stay). Contents ending in a backslash are not expressible as a literal and not generated.", "exploration"),
     "C11": ("4 C11", "bounded exhaustive enumeration of small numeric domains + property-based testing (rapid) of random calls against per-function reference contracts; metamorphic purity check (observe, call, observe)",
-            "Exploration: slice/at/truncate/repeat/decimal over all small (len, start, end / index / count) tuples; all zero-argument functions on value pools; random calls with right and wrong argument kinds, receiver as literal and as data, results compared structurally through index/member access; purity of every array function incl. chained calls on nested data; valid UTF-8 in implies valid UTF-8 out; built-in wins over a custom function of the same name for every built-in name.",
+            "Exploration: slice/at/truncate/repeat/decimal over all small (len, start, end / index / count) tuples; all zero-argument functions on value pools; random calls with right and wrong argument kinds, receiver as literal and as data, results compared structurally through index/member access; purity of every array function incl. chained calls on nested data; valid UTF-8 in implies valid UTF-8 out; built-in wins over a custom function of the same name for every built-in name. The kind of every scalar result is probed besides its text; a failing built-in call as receiver or argument of another fails that call too.",
             "Trusted: checks/c11_ref_test.go (contracts from the statement; rune-based string functions, clamping slice, structural contains). Silent spots (negative counts, slice with start > end or negative end, missing required arguments, decimal on partly numeric strings) are executed but not asserted.", "exploration"),
     "C12": ("4 C12", "property-based testing (rapid) with type-directed generation of Go values (run-time struct types via reflect.StructOf) and random access paths; differential against rendering the equal literal; deep-equality of the caller's data before/after",
-            "Exploration: values to depth 4 over all integer widths, float32/64 incl. NaN/Inf/extremes, arbitrary-byte strings, nil, pointers (nil, pointer to pointer), []T/[]any, map[string]T, structs (generated and hand-written with unexported/embedded/pointer fields) x random access paths in every spelling; 36 hand-written boundary shapes; unsupported kinds nested at any depth must fail the call; 20 mutating-looking templates must leave the caller's map deep-equal to an independent copy.",
+            "Exploration: values to depth 4 over all integer widths, float32/64 incl. NaN/Inf/extremes, arbitrary-byte strings, nil, pointers (nil, pointer to pointer), []T/[]any, map[string]T, structs (generated and hand-written with unexported/embedded/pointer fields) x random access paths in every spelling; 36 hand-written boundary shapes; unsupported kinds nested at any depth must fail the call; 20 mutating-looking templates must leave the caller's map deep-equal to an independent copy. Reads after operators on the same path; the same map object with other values in consecutive calls on one loaded Template.",
             "Trusted: lib/spec (builds the Go value and the model from one description), reflect.DeepEqual (cases containing NaN are not compared). Named scalar types and non-string-keyed maps are not generated (the statement lists types, not kinds).", "exploration"),
     "C13": ("4 C13", "property-based testing (rapid): single-fault injection into generated valid multi-line templates and template trees, expected line/file known by construction; plus an exhaustive table of fault forms x preceding multi-line token kinds",
             "Exploration: valid templates (reference interpreter says they render) with text/strings/comments/blocks/headers spanning lines before one single-line fault of each listed kind at a certainly-executed place; trees with page, layout and component for load-time and page-level faults. The reported line (and absolute path) must equal the line counted in the generated source.",
@@ -50,7 +50,7 @@ CLAIMED = {
             "Exploration: 60 (quick) / 8 x 150 (thorough) plans of 2..16 goroutines x 5..40 calls over {String, Response, EvaluateString, EvaluateFile} x {ok, failing, not found} on a loaded directory (layout, component, loops, objects, custom functions) under 6 configurations, GOMAXPROCS in {2,4,16}, Gosched noise, each plan repeated 2..5 times. The race detector is happens-before based: an unsynchronised access pair is reported whenever both sides execute in a run, not only when the bad interleaving occurs. A race or a result that differs from the call run alone is a violation; the plan is the replay (re-run 50 times).",
             "Trusted: the Go race detector (GORACE=halt_on_error=1; a reported race ends the process, the driver recovers the plan from the heartbeat and confirms by replaying). Interleavings are those the Go scheduler produces; they are not enumerated. A failure cannot be shrunk.", "exploration"),
     "C20": ("4 C20", "rapid state machine (t.Repeat) over registry/call/load operations + exhaustive enumeration of histories up to length 3; oracle: reference registry model with recording closures, differential rendering of results against the same Go value passed as data",
-            "Exploration: random histories of Register*/call/LoadTemplates over names {f, g, own built-in, other type's built-in, function returning an unsupported kind} x five receiver types x 0..3 arguments of any kind (nested arrays/objects, nil), literal and variable form, direct and through a loaded template; all histories of length <= 3 over an 11-operation alphabet. Checked: duplicate registration rejected and never replaces; built-in wins; the closure of the first registration receives receiver/arguments as plain Go values; the result renders like the same value passed as data; unregistered name -> error naming function and receiver type.",
+            "Exploration: random histories of Register*/call/LoadTemplates over names {f, g, own built-in, other type's built-in, function returning an unsupported kind} x five receiver types x 0..3 arguments of any kind (nested arrays/objects, nil), literal and variable form, direct and through a loaded template; all histories of length <= 3 over an 11-operation alphabet. Checked: duplicate registration rejected and never replaces; built-in wins; the closure of the first registration receives receiver/arguments as plain Go values; the result renders like the same value passed as data; unregistered name -> error naming function and receiver type. Array functions whose result holds an unsupported value at 20 nesting places are refused like the same value passed as data.",
             "Trusted: the reset hook (the registry cannot be emptied through the API), recording closures. Strings avoid < > & (literal escaping is C10's subject).", "exploration"),
     "C16": ("4 C16", "bounded exhaustive enumeration of operation histories + rapid random histories; oracle: every operation's result equals the same operation issued first after a fresh load (reset hook), configuration and caller data unchanged",
             "Exploration: all histories of length <= 2 (quick) / 3 (thorough) over 33 operation instances {String, Response, EvaluateString, EvaluateFile} x {succeeding, failing, not found, binding names at template level with and without data} under 6 configurations (debug x custom error page none/working/missing/failing); random histories of length 4..40. Results compared: output, error message + line + path, Response body + returned error.",
